@@ -32,6 +32,15 @@ Theorem C19_meta_roundtrip : forall m, wf_meta m -> meta_decode (meta_encode m) 
 Proof. exact meta_decode_encode. Qed.
 Print Assumptions C19_meta_roundtrip.
 
+(** SerializeTo written with the shifts, masks and ors of the Go code is the arithmetic form used
+    in the model, for arbitrary field values (each field is truncated to its width). *)
+Theorem C19_meta_encode_bits : forall m,
+  meta_encode_bits m = meta_encode m /\
+  meta_encode m = (curr_inf m mod 4) * 2 ^ 30 + (curr_hf m mod 64) * 2 ^ 24
+                  + (seg0 m mod 64) * 2 ^ 12 + (seg1 m mod 64) * 2 ^ 6 + seg2 m mod 64.
+Proof. intros m. split; [apply meta_encode_bits_eq | apply meta_encode_trunc]. Qed.
+Print Assumptions C19_meta_encode_bits.
+
 (** Decoding accepts exactly the shapes with contiguous non-empty segments of at most 64 hops in
     total; NumINF is then the number of segments and NumHops the total number of hops.
     (For every triple of segment lengths, no range assumption.) *)
